@@ -65,12 +65,13 @@ OutToMsgs(out) ==
 \* previous signatures `sg` and current lock `lk`
 SigBad(o, pk, hv, sg, lk) ==
      (IF sg[<<o.t, o.r>>] # NoSig /\ sg[<<o.t, o.r>>] # [v |-> o.v, pol |-> o.pol] THEN {"NoEquivocation"} ELSE {})
-  \cup (IF o.t = "precommit" /\ o.v # Nil /\ ~(o.v \in hv /\ [r |-> o.r, v |-> o.v] \in pk)
+  \* "holds that block": the block, under whatever part-set encoding; the polka is for exactly the BlockID precommitted
+  \cup (IF o.t = "precommit" /\ o.v # Nil /\ ~((\E h \in hv : SameBlock(h, o.v)) /\ [r |-> o.r, v |-> o.v] \in pk)
         THEN {"PrecommitJustified"} ELSE {})
-  \cup (IF o.t = "prevote" /\ lk.v # Nil /\ lk.r < o.r /\ o.v # lk.v
-           /\ ~(\E q \in pk : q.r > lk.r /\ q.r <= o.r /\ q.v # lk.v)
+  \cup (IF o.t = "prevote" /\ lk.v # Nil /\ lk.r < o.r /\ ~SameBlock(o.v, lk.v)
+           /\ ~(\E q \in pk : q.r > lk.r /\ q.r <= o.r /\ ~SameBlock(q.v, lk.v))
         THEN {"LockRespected"} ELSE {})
-  \cup (IF o.t = "proposal" /\ o.pol >= 0 /\ ~([r |-> o.pol, v |-> o.v] \in pk)
+  \cup (IF o.t = "proposal" /\ o.pol >= 0 /\ ~(\E q \in pk : q.r = o.pol /\ SameBlock(q.v, o.v))
         THEN {"ProposalCarriesValid"} ELSE {})
 
 \* fold over the signatures of one step, in signing order: [sig, lock, bad]
